@@ -4,14 +4,22 @@ from concurrent.futures import ProcessPoolExecutor, as_completed
 
 
 def _solve_one(job):
-    name, smt2, timeout_ms, want_model = job
+    name, smt2, timeout_ms, want_model = job[:4]
+    expect_sat = job[4] if len(job) > 4 else False
     import z3
     t0 = time.time()
     res, model, solver = 'unknown', None, 'z3'
+    if expect_sat:
+        # vacuity canaries must be refuted: the 4.8 CLI finds models of array/UF-heavy states much faster than 5.x
+        r3, m3 = _z3_cli(smt2, 3)
+        if r3 in ('proved', 'refuted'):
+            return name, r3, m3, round(time.time() - t0, 3), 'z3-4.8 cli'
     try:
         ctx = z3.Context()
         s = z3.Solver(ctx=ctx)
-        s.set('timeout', timeout_ms)
+        # first attempt is capped at 20 s (discharged obligations take < 10 s); what it leaves open goes to the
+        # system z3 4.8 CLI, then to a reseeded attempt with the full budget
+        s.set('timeout', min(timeout_ms, 20000))
         s.from_string(smt2)
         r = s.check()
         if r == z3.unsat:
@@ -40,6 +48,9 @@ def _solve_one(job):
                         except Exception:
                             pass
         else:
+            r3, m3 = _z3_cli(smt2, max(10, min(timeout_ms // 1000, 60)))
+            if r3 in ('proved', 'refuted'):
+                return name, r3, m3, round(time.time() - t0, 3), 'z3-4.8 cli'
             # retry once with another seed (instability, not incompleteness, is the usual cause)
             s2 = z3.Solver(ctx=z3.Context())
             s2.set('timeout', timeout_ms)
@@ -53,13 +64,6 @@ def _solve_one(job):
     except Exception as e:
         res = 'unknown'
         model = {'error': str(e)[:300]}
-    if res == 'unknown':
-        # third opinion: the system z3 (4.8.12 CLI) — its model search succeeds on some UF+array queries where 5.x gives up
-        r3, m3 = _z3_cli(smt2, max(10, min(timeout_ms // 1000, 60)))
-        if r3 in ('proved', 'refuted'):
-            res, solver = r3, 'z3-4.8 cli'
-            if m3:
-                model = m3
     return name, res, model, round(time.time() - t0, 3), solver
 
 
@@ -133,7 +137,7 @@ def discharge(obls, timeout_s=60, jobs=None, cvc5_recheck=False):
     todo = [o for o in obls if o.result is None]
     work = []
     for i, o in enumerate(todo):
-        work.append((i, o.smt2(), int(timeout_s * 1000), True))
+        work.append((i, o.smt2(), int(timeout_s * 1000), True, getattr(o, 'kind', '') == 'canary'))
     if work:
         with ProcessPoolExecutor(max_workers=jobs) as pool:
             futs = [pool.submit(_solve_one, w) for w in work]
